@@ -75,3 +75,75 @@ pub fn sample(t: &Ty, r: &mut Rng) -> Value {
         Ty::List(x, lo, hi) => { let n = r.range(*lo as i64, *hi as i64); Value::list((0..n).map(|_| sample(x, r)).collect::<Vec<_>>()) }
     }
 }
+
+/// a type that contains `t` (same shape, wider leaves), so that subset tests are often true
+pub fn widen(t: &Ty, r: &mut Rng) -> Ty {
+    match t {
+        Ty::Bool(_) => Ty::Bool(vec![false, true]),
+        Ty::Int(iv) => if r.chance(1, 3) { Ty::Float(iv.iter().map(|(a, b)| (*a as f64 - 1.0, *b as f64 + 1.0)).collect()) }
+                       else { Ty::Int(iv.iter().map(|(a, b)| (a.saturating_sub(r.range(0, 3)), b.saturating_add(r.range(0, 3)))).collect()) },
+        Ty::Float(iv) => Ty::Float(iv.iter().map(|(a, b)| (if r.chance(1, 2) { *a } else { a - 1.0 }, if r.chance(1, 2) { *b } else { b + 1.0 })).collect()),
+        Ty::Text(_) => Ty::Text(None),
+        Ty::Opt(x) => Ty::Opt(Box::new(widen(x, r))),
+        Ty::Struct(fs) => Ty::Struct(fs.iter().map(|(n, x)| (n.clone(), widen(x, r))).collect()),
+        Ty::List(x, lo, hi) => Ty::List(Box::new(widen(x, r)), lo.saturating_sub(1), hi + 1),
+    }
+}
+
+/// the shape of a type: variants and field names, ignoring ranges
+pub fn shape(t: &Ty) -> String {
+    match t {
+        Ty::Bool(_) => "b".into(), Ty::Int(_) => "i".into(), Ty::Float(_) => "f".into(), Ty::Text(_) => "t".into(),
+        Ty::Opt(x) => format!("o({})", shape(x)),
+        Ty::Struct(fs) => format!("s({})", fs.iter().map(|(n, x)| format!("{}:{}", n, shape(x))).collect::<Vec<_>>().join(",")),
+        Ty::List(x, _, _) => format!("l({})", shape(x)),
+    }
+}
+pub fn has_struct(t: &Ty) -> bool {
+    match t { Ty::Struct(_) => true, Ty::Opt(x) | Ty::List(x, _, _) => has_struct(x), _ => false }
+}
+
+/// The canonical embedding of a value into (the variant of) a type, composed from the base
+/// conversions the type-level dispatcher uses: Boolean -> Integer -> Float, anything printable -> Text,
+/// x -> some(x), x -> (x), applied structurally.  Membership "up to injection" is
+/// `embed(t, v).map(|w| t.contains(&w))`.
+pub fn embed(t: &DataType, v: &Value) -> Option<Value> {
+    use qrlew::data_type::Variant as _;
+    if t.contains(v) { return Some(v.clone()); }
+    match (t, v) {
+        (DataType::Any, _) => Some(v.clone()),
+        (DataType::Optional(o), Value::Optional(x)) => match x.as_ref() {
+            None => Some(Value::none()),
+            Some(x) => embed(o.data_type(), x).map(Value::some),
+        },
+        (DataType::Optional(o), x) => embed(o.data_type(), x).map(Value::some),
+        (DataType::List(l), Value::List(xs)) => {
+            let ys: Option<Vec<Value>> = xs.iter().map(|x| embed(l.data_type(), x)).collect();
+            ys.map(Value::list)
+        }
+        (DataType::List(l), x) => embed(l.data_type(), x).map(|y| Value::list(vec![y])),
+        (DataType::Struct(s), Value::Struct(fs)) => {
+            let mut out: Vec<(String, std::sync::Arc<Value>)> = vec![];
+            for (n, ft) in s.fields() {
+                let fv = fs.iter().find(|(m, _)| m == n)?;
+                out.push((n.clone(), std::sync::Arc::new(embed(ft, &fv.1)?)));
+            }
+            Some(Value::structured(out))
+        }
+        // Base<DataType,Struct>: a non-struct x is read as the struct {0: x}
+        (DataType::Struct(_), x) => embed(t, &Value::structured(vec![("0".to_string(), std::sync::Arc::new(x.clone()))])),
+        (DataType::Integer(_), Value::Boolean(b)) => Some(Value::integer(**b as i64)),
+        (DataType::Integer(_), Value::Float(f)) => { let x: f64 = **f; if (x as i64) as f64 == x { Some(Value::integer(x as i64)) } else { None } }
+        (DataType::Float(_), Value::Integer(i)) => Some(Value::float(**i as f64)),
+        (DataType::Float(_), Value::Boolean(b)) => Some(Value::float(**b as i64 as f64)),
+        (DataType::Boolean(_), Value::Integer(i)) => match **i { 0 => Some(Value::boolean(false)), 1 => Some(Value::boolean(true)), _ => None },
+        (DataType::Text(_), Value::Integer(i)) => Some(Value::text(format!("{}", **i))),
+        (DataType::Text(_), Value::Float(f)) => Some(Value::text(format!("{}", **f))),
+        (DataType::Text(_), Value::Boolean(b)) => Some(Value::text(format!("{}", **b))),
+        _ => None,
+    }
+}
+pub fn member(t: &DataType, v: &Value) -> bool {
+    use qrlew::data_type::Variant as _;
+    match std::panic::catch_unwind(std::panic::AssertUnwindSafe(|| embed(t, v).map(|w| t.contains(&w)).unwrap_or(false))) { Ok(b) => b, Err(_) => false }
+}
